@@ -483,3 +483,106 @@ fn get_response(
         ),
     })
 }
+
+/// Verification unit ports (compiled only with `--cfg gamedig_verif`): thin
+/// public wrappers that drive the private units above, nothing else.
+#[cfg(gamedig_verif)]
+pub mod verif_unit {
+    use super::*;
+
+    pub type SplitFields = (u32, u32, u8, u8, u16, Option<(u32, u32)>, Vec<u8>);
+
+    pub fn split_packet_new(engine: &Engine, protocol: u8, data: &[u8]) -> GDResult<SplitFields> {
+        let mut buffer = Buffer::<LittleEndian>::new(data);
+        let p = SplitPacket::new(engine, protocol, &mut buffer)?;
+        Ok((
+            p.header,
+            p.id,
+            p.total,
+            p.number,
+            p.size,
+            p.decompressed,
+            p.payload,
+        ))
+    }
+
+    pub fn split_get_payload(decompressed: Option<(u32, u32)>, payload: Vec<u8>) -> GDResult<Vec<u8>> {
+        SplitPacket {
+            header: 0xFFFF_FFFE,
+            id: 0,
+            total: 1,
+            number: 0,
+            size: 0,
+            decompressed,
+            payload,
+        }
+        .get_payload()
+    }
+
+    pub fn receive(
+        address: &SocketAddr,
+        timeout_settings: Option<TimeoutSettings>,
+        engine: &Engine,
+        protocol: u8,
+    ) -> GDResult<(u32, u8, Vec<u8>)> {
+        let mut client = ValveProtocol::new(address, timeout_settings)?;
+        let r = client.receive(engine, protocol, PACKET_SIZE);
+        core::mem::forget(client);
+        let p = r?;
+        Ok((p.header, p.kind, p.payload))
+    }
+
+    pub fn get_request_data(
+        address: &SocketAddr,
+        timeout_settings: Option<TimeoutSettings>,
+        engine: &Engine,
+        protocol: u8,
+        kind: u8,
+        payload: Vec<u8>,
+    ) -> GDResult<Vec<u8>> {
+        let mut client = ValveProtocol::new(address, timeout_settings)?;
+        let r = client.get_request_data(engine, protocol, kind, payload);
+        core::mem::forget(client);
+        r
+    }
+
+    pub fn goldsrc_server_info(data: &[u8]) -> GDResult<ServerInfo> {
+        let mut buffer = Buffer::<LittleEndian>::new(data);
+        ValveProtocol::get_goldsrc_server_info(&mut buffer)
+    }
+
+    pub fn server_info(
+        address: &SocketAddr,
+        timeout_settings: Option<TimeoutSettings>,
+        engine: &Engine,
+    ) -> GDResult<ServerInfo> {
+        let mut client = ValveProtocol::new(address, timeout_settings)?;
+        let r = client.get_server_info(engine);
+        core::mem::forget(client);
+        r
+    }
+
+    pub fn server_players(
+        address: &SocketAddr,
+        timeout_settings: Option<TimeoutSettings>,
+        engine: &Engine,
+        protocol: u8,
+    ) -> GDResult<Vec<ServerPlayer>> {
+        let mut client = ValveProtocol::new(address, timeout_settings)?;
+        let r = client.get_server_players(engine, protocol);
+        core::mem::forget(client);
+        r
+    }
+
+    pub fn server_rules(
+        address: &SocketAddr,
+        timeout_settings: Option<TimeoutSettings>,
+        engine: &Engine,
+        protocol: u8,
+    ) -> GDResult<HashMap<String, String>> {
+        let mut client = ValveProtocol::new(address, timeout_settings)?;
+        let r = client.get_server_rules(engine, protocol);
+        core::mem::forget(client);
+        r
+    }
+}
